@@ -24,6 +24,9 @@ const CHILD: &str = "child = #\\File { =g, d = [g, 0, 4] __file_read__, d __bina
 const KEEPFN: &str = "keepfn = #{ g = !#(#[] -> 'int), g }";
 const LAZY: &str = "lazy = #{ ! [#('int | \\File) { ='int => Ok }], 0 }";
 const IDLE: &str = "idle = #{ x = !'int, f = !#\\File, 0 }";
+const TWO: &str = "two = #['bin, 'bin, 'int] { =[p1, p2, mode], f = [p1, 577, 420] __file_open__, g = [p2, 577, 420] __file_open__, a = [f, 0, 0x01] __file_write__, b = [g, 0, 0x0203] __file_write__, mode { | =0 => f __file_close__ | =2 => [1, 0] __integer_divide__ | Ok }, [a, b] __integer_add__ }";
+const BOUNCER: &str = "bouncer = #{ !#[\\File, (@\\File)] =[f, to], f to, 7 }";
+const PP: &str = "pp = #'bin { =path, b = @bouncer, f = [path, 577, 420] __file_open__, w = [f, 0, 0x0a0b0c] __file_write__, [f, &.] b, g = !#\\File, d = [g, 0, 8] __file_read__, d __binary_length__ }";
 
 impl Property for C14 {
     fn id(&self) -> &'static str {
@@ -55,17 +58,19 @@ impl Property for C14 {
             "explicit_close",
             "owner_terminated_by_failure_resource_closed",
             "handle_in_mailbox_of_finished_process_closed",
+            "ownership_returned_to_earlier_owner",
+            "process_owning_two_resources_closed",
         ]
     }
     fn generate(&self, rng: &mut Rng, _tier: Tier) -> Scenario {
-        let defs: Vec<String> = vec![USER.into(), GIVER.into(), KEEPER.into(), KEEPT.into(), CHILD.into(), KEEPFN.into(), LAZY.into(), IDLE.into()];
+        let defs: Vec<String> = vec![USER.into(), GIVER.into(), KEEPER.into(), KEEPT.into(), CHILD.into(), KEEPFN.into(), LAZY.into(), IDLE.into(), TWO.into(), BOUNCER.into(), PP.into()];
         let mut h = crate::rng::Fnv::default();
         let mut lines: Vec<String> = Vec::new();
         let mut awaits: Vec<String> = Vec::new();
         let neps = 1 + rng.usize(4);
         let mut kinds = Vec::new();
         for k in 0..neps {
-            let kind = rng.below(8);
+            let kind = rng.below(11);
             h.u64(kind);
             kinds.push(kind);
             let aw = |rng: &mut Rng, awaits: &mut Vec<String>, name: String| {
@@ -123,11 +128,36 @@ impl Property for C14 {
                     lines.push(format!("1 l{k}"));
                     aw(rng, &mut awaits, format!("l{k}"));
                 }
-                _ => {
+                7 => {
                     // handle parked in the mailbox of a process that stays alive
                     lines.push(format!("i{k} = @idle"));
                     lines.push(format!("f{k} = [\"/e{k}\" .0, 577, 420] __file_open__"));
                     lines.push(format!("f{k} i{k}"));
+                }
+                8 => {
+                    // two resources owned by one process
+                    let mode = rng.below(3);
+                    h.u64(mode);
+                    lines.push(format!("d{k} = [\"/e{k}a\" .0, \"/e{k}b\" .0, {mode}] @two"));
+                    aw(rng, &mut awaits, format!("d{k}"));
+                    // sometimes awaited twice (the second report finds the resources already cleaned up)
+                    if rng.chance(1, 3) {
+                        awaits.push(format!("d{k}"));
+                    }
+                }
+                9 => {
+                    // a handle sent away and sent back
+                    lines.push(format!("b{k} = \"/e{k}\" .0 @pp"));
+                    aw(rng, &mut awaits, format!("b{k}"));
+                }
+                _ => {
+                    // spawn with a handle in a capture AND a handle as the argument
+                    lines.push(format!("f{k} = [\"/e{k}x\" .0, 577, 420] __file_open__"));
+                    lines.push(format!("g{k} = [\"/e{k}y\" .0, 577, 420] __file_open__"));
+                    lines.push(format!("w{k} = [f{k}, 0, 0x01] __file_write__"));
+                    lines.push(format!("v{k} = [g{k}, 0, 0x0203] __file_write__"));
+                    lines.push(format!("c{k} = g{k} @#\\File {{ =h, a = [f{k}, 0, 4] __file_read__, b = [h, 0, 4] __file_read__, [a __binary_length__, b __binary_length__] __integer_add__ }}"));
+                    aw(rng, &mut awaits, format!("c{k}"));
                 }
             }
         }
@@ -137,7 +167,7 @@ impl Property for C14 {
         for (i, a) in awaits.iter().enumerate() {
             lines.push(format!("r{i} = ! [{a}, 400]"));
         }
-        if use_after && let Some((k, _)) = kinds.iter().enumerate().find(|(_, kd)| matches!(**kd, 2 | 3 | 6 | 7)) {
+        if use_after && let Some((k, _)) = kinds.iter().enumerate().find(|(_, kd)| matches!(**kd, 2 | 3 | 6 | 7 | 10)) {
             lines.push(format!("z = [f{k}, 0, 1] __file_read__"));
             h.u64(0xdead);
         }
@@ -200,6 +230,8 @@ pub struct ResMonitor {
     rejected: BTreeMap<usize, u32>,
     probes: BTreeMap<String, u64>,
     failed_owner_closed: BTreeSet<usize>,
+    past_owners: BTreeMap<usize, Vec<usize>>,
+    closed_by_owner: BTreeMap<usize, u32>,
 }
 
 fn resources_in(v: &Value, depth: u8, out: &mut Vec<(usize, u8)>) {
@@ -256,6 +288,13 @@ impl ResMonitor {
         self.open.remove(rid);
         self.probe("auto_close_effective");
         if let Some(o) = owner {
+            let n = self.closed_by_owner.entry(o).or_insert(0);
+            *n += 1;
+            if *n == 2 {
+                self.probe("process_owning_two_resources_closed");
+            }
+        }
+        if let Some(o) = owner {
             if Self::failed(world, o) && self.failed_owner_closed.insert(*rid) {
                 self.probe("owner_terminated_by_failure_resource_closed");
             }
@@ -284,6 +323,12 @@ impl ResMonitor {
                 // delivered to a process whose termination was already reported: the statement is silent
                 self.silent.insert(r);
                 self.probe("handle_delivered_to_already_reported_process_not_judged");
+            }
+            if self.past_owners.get(&r).is_some_and(|v| v.contains(&to)) {
+                self.probe("ownership_returned_to_earlier_owner");
+            }
+            if let Some(prev) = self.owner.get(&r).copied() {
+                self.past_owners.entry(r).or_default().push(prev);
             }
             self.owner.insert(r, to);
             let _ = world;
